@@ -64,7 +64,7 @@ def crc32c(data: bytes) -> bytes:
     return CRC.crc32c(data, 'little')
 
 
-def decode(data: bytes, strict_index=True):
+def decode(data: bytes, strict_index=True, unique=True):
     """strict decoder: returns list of root DCells; raises FormatError on anything the format forbids"""
     if len(data) < 6:
         raise FormatError('too short')
@@ -168,7 +168,7 @@ def decode(data: bytes, strict_index=True):
         if ri >= cells:
             raise FormatError('root index out of range')
     structs = [c.struct() for c in built]
-    if len(set(structs)) != len(structs):
+    if unique and len(set(structs)) != len(structs):
         raise FormatError('a cell appears more than once')
     return [built[ri] for ri in root_list]
 
@@ -197,13 +197,15 @@ def encode(cells, roots=(0,), kind='generic', size=None, off=None, has_idx=False
         for r in refs:
             body += r.to_bytes(size, 'big')
         ends.append(len(body))
+    if kind != 'generic':
+        has_cache = False
     top = (len(body) * 2 + 1) if has_cache else len(body)
     off = off or max(1, (top.bit_length() + 7) // 8)
     if kind == 'generic':
         out = bytes.fromhex(MAGIC[kind]) + bytes([(128 if has_idx else 0) + (64 if has_crc else 0) + (32 if has_cache else 0) + size])
     else:
         out = bytes.fromhex(MAGIC[kind]) + bytes([size])
-        has_idx, has_crc = True, kind == 'idx_crc'
+        has_idx, has_crc, has_cache = True, kind == 'idx_crc', False
     out += bytes([off]) + n.to_bytes(size, 'big') + len(roots).to_bytes(size, 'big') + (0).to_bytes(size, 'big') + \
         len(body).to_bytes(off, 'big')
     if kind == 'generic':
